@@ -184,8 +184,10 @@ class TransposePermutationLinearOperator(AbstractPermutationLinearOperator):
         return self._dtype
 
     def type(self: LinearOperator, dtype: torch.dtype) -> LinearOperator:
-        self._dtype = dtype
-        return self
+        # (a conversion returns a new operator: it must not change the dtype of this one)
+        res = self.__class__(self.m)
+        res._dtype = dtype
+        return res
 
     @property
     def device(self) -> Optional[torch.device]:
